@@ -469,6 +469,48 @@ func (w *world) apply(line string) string {
 		} else {
 			kind = kindOf(r, false)
 		}
+	case "rewards", "delegation":
+		// the two read-only methods, called through a real transaction of some user
+		a := ints(2)
+		caller := -1
+		for i := range w.accs {
+			if w.sign[i] != nil {
+				caller = i
+				break
+			}
+		}
+		var data []byte
+		var err error
+		if f[0] == "rewards" {
+			data, err = precompile.NewDelegationRewardsMethod(nil).PackInput(fxstakingtypes.DelegationRewardsArgs{
+				Validator: w.vals[a[1]].String(), Delegator: common.BytesToAddress(w.accs[a[0]])})
+		} else {
+			data, err = precompile.NewDelegationMethod(nil).PackInput(fxstakingtypes.DelegationArgs{
+				Validator: w.vals[a[1]].String(), Delegator: common.BytesToAddress(w.accs[a[0]])})
+		}
+		if err != nil {
+			panic(err)
+		}
+		kind = kindOf(w.ethTx(caller, data), false)
+		if kind == "ok" {
+			if f[0] == "rewards" {
+				if r, e := precompile.NewDelegationRewardsMethod(nil).UnpackOutput(w.lastRet); e == nil {
+					ret = " ret=" + r.String()
+				} else {
+					ret = " ret=undecodable"
+				}
+			} else if sh, amt, e := precompile.NewDelegationMethod(nil).UnpackOutput(w.lastRet); e == nil {
+				ret = fmt.Sprintf(" ret=%s:%s", sh, amt)
+			} else {
+				ret = " ret=undecodable"
+			}
+			after := w.snapshot()
+			for _, name := range []string{stakingtypes.StoreKey, distrtypes.StoreKey} {
+				if before.digest[name] != after.digest[name] {
+					w.violate(fmt.Sprintf("read-only method %s changed the %s store", f[0], name))
+				}
+			}
+		}
 	case "delegate", "undelegate":
 		a := ints(2)
 		amt := bigOf(f[3])
@@ -530,7 +572,9 @@ func (w *world) apply(line string) string {
 		}
 		erf, ert := w.expectedPayouts(from, to, v)
 		bf, bt := w.bal(from), w.bal(to)
+		third := w.thirdParties(from, to, v)
 		kind = kindOf(w.ethTx(from, data), true)
+		w.checkThird("transferShares", kind, from, to, v, third)
 		class = w.checkTransfer("transferShares", before, kind, from, to, v, x, recv)
 		w.checkPayouts("transferShares", kind, from, to, v, erf, ert, bf, bt)
 		w.checkFresh("transferShares", kind, from, to, v)
@@ -550,7 +594,9 @@ func (w *world) apply(line string) string {
 		}
 		erf, ert := w.expectedPayouts(from, to, v)
 		bf, bt := w.bal(from), w.bal(to)
+		third := w.thirdParties(from, to, v)
 		kind = kindOf(w.ethTx(sp, data), true)
+		w.checkThird("transferFromShares", kind, from, to, v, third)
 		class = w.checkTransfer("transferFromShares", before, kind, from, to, v, x, recv)
 		w.checkPayouts("transferFromShares", kind, from, to, v, erf, ert, bf, bt)
 		w.checkFresh("transferFromShares", kind, from, to, v)
@@ -580,10 +626,65 @@ func (w *world) apply(line string) string {
 			w.violate(fmt.Sprintf("failed %s (%s) changed stores %v", f[0], kind, diff))
 		}
 	}
-	if !w.dead && f[0] != "dump" && f[0] != "block" {
+	if !w.dead && f[0] != "dump" && f[0] != "block" && f[0] != "rewards" && f[0] != "delegation" {
 		w.invariants(f[0])
 	}
 	return kind + " | " + w.dump() + ret
+}
+
+// thirdParties: the rewards the SDK computes right now (period ended on a branch of the state) for every delegator of
+// validator v other than the two parties of a transfer, as raw 18-decimal strings ("!…" = the calculation fails).
+func (w *world) thirdParties(from, to, v int) map[int]string {
+	res := map[int]string{}
+	for d := range w.accs {
+		if d == from || d == to {
+			continue
+		}
+		cctx, _ := w.ctx().CacheContext()
+		app := w.s.App
+		del, err := app.StakingKeeper.Delegation(cctx, w.accs[d], w.vals[v])
+		if err != nil {
+			continue
+		}
+		out := ""
+		r := hx.Try(func() error {
+			val, err := app.StakingKeeper.Validator(cctx, w.vals[v])
+			if err != nil {
+				return err
+			}
+			ending, err := app.DistrKeeper.IncrementValidatorPeriod(cctx, val)
+			if err != nil {
+				return err
+			}
+			rw, err := app.DistrKeeper.CalculateDelegationRewards(cctx, val, del, ending)
+			if err != nil {
+				return err
+			}
+			out = decCoinsRaw(rw)
+			return nil
+		})
+		if r != "ok" {
+			out = "!" + r
+		}
+		res[d] = out
+	}
+	return res
+}
+
+// checkThird: a transfer leaves every third party's reward entitlement exactly as it was.
+func (w *world) checkThird(name, kind string, from, to, v int, before map[int]string) {
+	if kind != "ok" || w.dead {
+		return
+	}
+	after := w.thirdParties(from, to, v)
+	for d, b := range before {
+		if a := after[d]; a != b {
+			w.violate(fmt.Sprintf("%s between accounts %d and %d changed the pending rewards of third party %d at validator %d: %s -> %s (raw 18-decimal)",
+				name, from, to, d, v, b, a))
+			return
+		}
+	}
+	w.out.Count(fmt.Sprintf("transfer-ok:third-parties=%d", len(before)))
 }
 
 // checkFrame: a successful delegate / undelegate / redelegate / withdraw / approve sent by `caller` acts for the caller
@@ -1119,8 +1220,17 @@ func (g *gen) next() string {
 		}
 		from := hx.Pick(r, us)
 		return fmt.Sprintf("transferFrom %d %d %d %d %s", hx.Pick(r, us), from, g.pickTo(from), v, g.transferAmount(from, v))
-	case roll < 86:
+	case roll < 83:
 		return fmt.Sprintf("withdraw %d %d", hx.Pick(r, us), v)
+	case roll < 86:
+		// read-only queries of anybody's position (operators included)
+		if r.Intn(3) == 0 {
+			return fmt.Sprintf("delegation %d %d", r.Intn(len(w.accs)), v)
+		}
+		if len(hs) > 0 && r.Intn(2) == 0 {
+			return fmt.Sprintf("rewards %d %d", hx.Pick(r, hs), v)
+		}
+		return fmt.Sprintf("rewards %d %d", r.Intn(len(w.accs)), v)
 	case roll < 91 && len(hs) > 0:
 		d := hx.Pick(r, hs)
 		val, _ := w.s.App.StakingKeeper.GetValidator(w.ctx(), w.vals[v])
